@@ -170,6 +170,11 @@ def _run(chk, replay):
         how = hows[i % 3]
         field = ["density", "ones", "temp"][(i // 3) % 3]
         axes = perms[i % 6]
+        slab = sc["sig"][6] if len(sc["sig"]) > 6 else []
+        if slab and i % 2 == 0:
+            # a box refined along a whole side: that lattice axis becomes the z axis (the slowest one of the stored data)
+            on1 = any(x.endswith("1") for x in slab)
+            axes = ([(2, 0, 1), (2, 1, 0)] if on1 else [(0, 2, 1), (1, 2, 0)])[(i // 2) % 2]
         scale = [1, 2, 4][(i // 2) % 3] if len(sc["mesh"]) < 3 else 1
         cfgseed = chk.rng.randrange(1 << 30)
         # extent of the boxes along the extruded axis, in lattice cells: as the in-plane extents (4), between (6), or twice
@@ -177,7 +182,7 @@ def _run(chk, replay):
         ext = [6, 4, 8][(i // 6) % 3]
         ext_cut = ext == 8
         v = run_scenario(chk, sc, cfgseed, how, field, axes, scale, ext, ext_cut)
-        sigs = util.sig_str(sc["sig"], how, field, scale, "ext%d" % ext)
+        sigs = util.sig_str(sc["sig"], how, field, scale, "ext%d" % ext, "z=lattice%d" % (1 + list(axes).index(2)) if axes[2] != 2 else "z=extruded")
         chk.executed(sigs, sc["sig"][0] > 1, sample={"mesh": sc["mesh"], "lim": sc["lim"], "volfrac": sc["volfrac"],
                                                      "how": how, "field": field, "axes": axes, "blocking_factor": 2 * scale})
         chk.traces += 1
